@@ -723,6 +723,25 @@ func (e *SpecEnv) call(x *SX) Term {
 			return sliceRef(a)
 		}
 		return Term{a.S, sInt}
+	case "addr":
+		// addr(x): the reference of the cell of an address-taken local variable or captured variable x
+		if args[0].Op == "ident" {
+			var v Val
+			if e.resolveLocal != nil {
+				if lv, ok := e.resolveLocal(args[0].Tok); ok {
+					v = lv
+				}
+			}
+			if v == nil {
+				v = e.vars[args[0].Tok]
+			}
+			if d, ok := v.(*derefOnUse); ok {
+				if pt, ok := d.ptr.(Term); ok {
+					return Term{pt.S, sInt}
+				}
+			}
+		}
+		e.bad("addr() needs an address-taken local variable")
 	case "off":
 		return sliceOff(e.eval(args[0]))
 	case "mapget", "maphas":
@@ -769,6 +788,17 @@ func (e *SpecEnv) call(x *SX) Term {
 	case "seq":
 		// seq(s) : the elements of a byte slice / string as a mathematical sequence value
 		return e.seqOf(args[0])
+	case "distinctElems":
+		// distinctElems(s): the elements of slice s are pairwise different (stated over absolute indices of the
+		// backing array, so that the two-variable trigger matches whatever the offset is)
+		a := e.eval(args[0])
+		if a.T.K != KSlice {
+			e.bad("distinctElems() needs a slice")
+		}
+		hn, hs, _ := u.elemHeapName(a.T.Go.Underlying().(*types.Slice).Elem())
+		h := u.heap(e.st, hn, hs)
+		arr := "(select " + h.S + " (s-ref " + a.S + "))"
+		return Term{fmt.Sprintf("(forall ((q_da Int) (q_db Int)) (! (=> (and (<= (s-off %[1]s) q_da) (< q_da q_db) (< q_db (+ (s-off %[1]s) (s-len %[1]s)))) (not (= (select %[2]s q_da) (select %[2]s q_db)))) :pattern ((select %[2]s q_da) (select %[2]s q_db))))", a.S, arr), sBool}
 	case "raw":
 		// raw(s): the whole backing array of a byte slice (index it with off(s)+i); no shift, no axiom
 		a := e.eval(args[0])
@@ -1104,31 +1134,44 @@ func substSX(x *SX, sub map[string]*SX) *SX {
 }
 
 type pivotCand struct {
-	node *SX // the index node
-	off  *SX // additive offset in the index expression (nil = none)
-	neg  bool
+	node  *SX // the index node
+	off   *SX // additive offset in the index expression (nil = none)
+	neg   bool
+	inOld bool // the node sits under old(...): its base (and the offset of that slice) belong to the old state
 }
 
 // pivotCandidates collects index expressions  s[v], s[E+v], s[v+E], s[v-E]  (s and E free of bound variables).
 func pivotCandidates(x *SX, v string, binders []string, acc []pivotCand) []pivotCand {
+	return pivotCandidatesIn(x, v, binders, acc, false)
+}
+
+func pivotCandidatesIn(x *SX, v string, binders []string, acc0 []pivotCand, inOld bool) []pivotCand {
 	if x == nil || x.Op == "forall" || x.Op == "exists" {
-		return acc
+		return acc0
 	}
+	if x.Op == "call" && len(x.Args) == 2 && x.Args[0].Op == "ident" && x.Args[0].Tok == "old" {
+		return pivotCandidatesIn(x.Args[1], v, binders, acc0, true)
+	}
+	n0 := len(acc0)
+	acc := acc0
+	defer func() {
+		_ = n0
+	}()
 	if x.Op == "index" && !mentions(x.Args[0], binders) {
 		ix := x.Args[1]
 		switch {
 		case ix.Op == "ident" && ix.Tok == v:
-			acc = append(acc, pivotCand{node: x})
+			acc = append(acc, pivotCand{node: x, inOld: inOld})
 		case ix.Op == "bin" && ix.Tok == "+" && ix.Args[1].Op == "ident" && ix.Args[1].Tok == v && !mentions(ix.Args[0], binders):
-			acc = append(acc, pivotCand{node: x, off: ix.Args[0]})
+			acc = append(acc, pivotCand{node: x, off: ix.Args[0], inOld: inOld})
 		case ix.Op == "bin" && ix.Tok == "+" && ix.Args[0].Op == "ident" && ix.Args[0].Tok == v && !mentions(ix.Args[1], binders):
-			acc = append(acc, pivotCand{node: x, off: ix.Args[1]})
+			acc = append(acc, pivotCand{node: x, off: ix.Args[1], inOld: inOld})
 		case ix.Op == "bin" && ix.Tok == "-" && ix.Args[0].Op == "ident" && ix.Args[0].Tok == v && !mentions(ix.Args[1], binders):
-			acc = append(acc, pivotCand{node: x, off: ix.Args[1], neg: true})
+			acc = append(acc, pivotCand{node: x, off: ix.Args[1], neg: true, inOld: inOld})
 		}
 	}
 	for _, a := range x.Args {
-		acc = pivotCandidates(a, v, binders, acc)
+		acc = pivotCandidatesIn(a, v, binders, acc, inOld)
 	}
 	return acc
 }
@@ -1163,7 +1206,17 @@ func (e *SpecEnv) quant(x *SX) Term {
 				}()
 				bn := x.BindNames[0]
 				qn := "q_" + bn
-				b := e.eval(pc.node.Args[0])
+				be := e
+				if pc.inOld && !e.inOld {
+					if e.old == nil {
+						return false
+					}
+					oe := *e
+					oe.st = e.old
+					oe.inOld = true
+					be = &oe
+				}
+				b := be.eval(pc.node.Args[0])
 				if isLit(b) {
 					return false
 				}
@@ -1174,7 +1227,7 @@ func (e *SpecEnv) quant(x *SX) Term {
 					return false
 				}
 				if pc.off != nil {
-					o := e.evalInt(pc.off)
+					o := be.evalInt(pc.off)
 					if pc.neg {
 						shift = sub(shift, o)
 					} else {
